@@ -87,6 +87,14 @@ R15.10 "shortly after": every bounded blocking call of the polling loop has a
        constants folded, locals followed, min / max / helpers, and a period
        computed from its own previous value (`d = min(d * 2, cap)`, `d += s`:
        a back-off) iterated from its initial value to its fixpoint.
+R15.11 the polled state becomes final: for a pilot facade in any non-final
+       state that is notified DONE / FAILED / CANCELED (notifications between
+       may be lost), the states PilotManager._update_pilot hands Pilot._update,
+       applied one by one by Pilot._update as it is, leave Pilot._state - what
+       Pilot.wait and wait_pilots poll - in that final state.  Decidable only
+       by value over the state table: C14's R14.7 is evaluated (imported, not
+       copied) and a finding of it is taken over only when the facade really
+       misses the final state; everything else about the replay stays C14's.
 """
 
 import ast
@@ -4680,6 +4688,187 @@ def r15_8(prog, rep, rid='R15.8'):
 
 
 # ------------------------------------------------------------------------------
+# R15.11  the state the pilot wait loops poll becomes final.  Pilot.wait and
+# wait_pilots poll Pilot._state; its only writer is Pilot._update, driven by
+# PilotManager._update_pilot (C14).  "Returns once the awaited entity is
+# final" needs: for a pilot facade in ANY non-final state (notifications may
+# be lost or late) that is notified a final state T, the states _update_pilot
+# hands Pilot._update - applied one by one by Pilot._update as it is - leave
+# the facade in T.  That is decidable only by value over the pilot state table
+# (what is replayed x what Pilot._update accepts), which is what C14's R14.7
+# does: the rule is C14's, evaluated here, and of its findings only those are
+# taken over for which the facade really does not end in T (a replay that is
+# wrong for the callbacks but still ends in T is C14's matter alone).
+#
+_RE_REPLAY = (r'for a pilot in state (\S+) that is notified (\S+), '
+              r'Pilot\._update receives the states (\[[^\]]*\]); it must')
+_RE_ACCEPT = r'hands Pilot\._update the step (\S+) -> (\S+),'
+
+
+def _plain_state_writes(prog, upd):
+    """the `state` the wait loops read is `self._state`, and Pilot._update
+    (with the methods of the class) writes it by plain assignments only: what
+    R14.7's evaluation of Pilot._update follows"""
+    prop = prog.find_method(upd.cls, 'state')
+    if prop is not None:
+        rets = [n.value for n in walk(prop.node) if isinstance(n, ast.Return)]
+        if len(rets) != 1 or rets[0] is None or \
+                unparse(rets[0]) != 'self._state':
+            return False
+    for h in _methods_of(upd.cls):
+        if h.name == '__init__':
+            continue
+        for n in walk(h.node):
+            if isinstance(n, ast.Call) and dotted(n.func) == 'setattr' and \
+                    n.args and unparse(n.args[0]) == 'self' and not (
+                        len(n.args) == 3 and
+                        isinstance(n.args[1], ast.Constant) and
+                        n.args[1].value not in STATE_ATTRS):
+                return False
+            if isinstance(n, (ast.AugAssign, ast.AnnAssign)) and \
+                    unparse(n.target) == 'self._state':
+                return False
+            if isinstance(n, ast.Assign) and any(
+                    unparse(x) == 'self._state'
+                    for t in n.targets for x in walk(t)) and not (
+                        len(n.targets) == 1 and
+                        unparse(n.targets[0]) == 'self._state'):
+                return False
+    return True
+
+
+def r15_11(prog, rep, rid='R15.11'):
+    import re
+    from . import c14
+    from ..report import Report
+    fn  = getattr(c14, 'r14_7', None)
+    acc = getattr(c14, '_step_accepted', None)
+    if fn is None or acc is None:
+        raise AnalysisError('%s: c14.r14_7 / c14._step_accepted not found'
+                            % rid)
+    rep.rule(rid, '[C14 R14.7, the part this property needs] the state the '
+             'pilot wait loops poll becomes final: for a pilot facade in any '
+             'non-final state that is notified DONE / FAILED / CANCELED, the '
+             'states PilotManager._update_pilot hands Pilot._update, applied '
+             'one by one by Pilot._update, leave Pilot._state in that final '
+             'state', minimum=3)
+    final = _final(prog)
+    up  = prog.method('pilot_manager.py', 'PilotManager', '_update_pilot')
+    upd = prog.method('pilot.py', 'Pilot', '_update')
+    rep.saw(up)
+    rep.saw(upd)
+    tmp = Report(rep.prop, rep.tier, rep.root, quiet=True)
+    fn(prog, tmp, rid=rid)
+    for k, v in tmp.stats.items():
+        rep.stat(k, v)
+    plain = _plain_state_writes(prog, upd)
+    bad, masked = {}, set()
+
+    def mask(kind, tgt, why, loc):
+        rep.info(rid, up, 'final target %s (%s): %s - not decided here, '
+                 'C14 R14.7 reports it' % (tgt, kind, why), loc)
+        masked.add((kind, tgt))
+
+    for fd in tmp.findings:
+        kind, _, tgt = str(fd.construct).partition(':')
+        if kind not in ('replay', 'accept') or tgt not in final:
+            continue
+        if not plain:
+            mask(kind, tgt, 'Pilot._state is not written by plain '
+                 'assignments to self._state only, the evaluation of '
+                 'Pilot._update is not relied on', fd.loc)
+            continue
+        if kind == 'accept':
+            m = re.search(_RE_ACCEPT, fd.message)
+            if not m or m.group(2) != tgt:
+                raise AnalysisError('%s: finding of R14.7 not understood: %s'
+                                    % (rid, fd.message[:120]))
+            prev = m.group(1)
+            if prev in final:
+                mask(kind, tgt, 'R14.7 names a step from the pilot already '
+                     'being %s (a wait has returned for it)' % prev, fd.loc)
+                continue
+            bad[(kind, tgt)] = (fd, prev, [tgt], prev)
+            continue
+        m = re.search(_RE_REPLAY, fd.message)
+        try:
+            seq = ast.literal_eval(m.group(3)) if m else None
+        except (ValueError, SyntaxError):
+            seq = None
+        if not m or m.group(2) != tgt or not isinstance(seq, list) or \
+                not all(isinstance(s, str) for s in seq):
+            raise AnalysisError('%s: finding of R14.7 not understood: %s'
+                                % (rid, fd.message[:120]))
+        cur = m.group(1)
+        if cur in final:
+            mask(kind, tgt, 'R14.7 names the nearest pair only, a pilot '
+                 'that already is %s (a wait has returned for it)' % cur,
+                 fd.loc)
+            continue
+        # apply the states as Pilot._update does.  A step it does not take
+        # either raises (the rest of the replay is not run) or returns (the
+        # replay goes on from the old state): the facade must miss the final
+        # state either way
+        ends, unknown = set(), False
+        for stop in (True, False):
+            st = cur
+            for s in seq:
+                a = True if s == st else acc(prog, upd, st, s)
+                if a is None:
+                    unknown = True
+                    break
+                if a:
+                    st = s
+                elif stop:
+                    break
+            ends.add(st)
+        if unknown:
+            mask(kind, tgt, 'a step of %s from %s cannot be evaluated in '
+                 'Pilot._update' % (seq, cur), fd.loc)
+        elif tgt in ends:
+            rep.info(rid, up, 'C14 R14.7 reports the replay %s for a pilot '
+                     'in %s notified %s; Pilot._update takes it and ends in '
+                     '%s: the waits are not affected' % (seq, cur, tgt, tgt),
+                     fd.loc)
+        else:
+            bad[(kind, tgt)] = (fd, cur, seq, sorted(ends)[0])
+
+    for tgt in sorted(final):
+        for kind in ('replay', 'accept'):
+            if (kind, tgt) in masked:
+                continue
+            hit = bad.get((kind, tgt))
+            if hit is None:
+                rep.ok(rid, up, '%s: %s' % (up.qual, (
+                    'a pilot in a non-final state that is notified %s is '
+                    'handed to Pilot._update so that it ends in %s'
+                    % (tgt, tgt)) if kind == 'replay' else
+                    'Pilot._update takes every step into %s it is handed'
+                    % tgt), up.loc())
+                continue
+            fd, cur, seq, end = hit
+            rep.bad(rid, fd.where, 'polled pilot state never becomes %s (%s)'
+                    % (tgt, kind),
+                    '%s: a pilot facade in state %s that is notified %s is '
+                    'handed the state(s) %s; %s does not take %s (it '
+                    'raises / returns before `self._state = ...`), so '
+                    'Pilot._state - the state Pilot.wait and PilotManager.'
+                    'wait_pilots poll - stays %s and never becomes %s, also '
+                    'when the notification is repeated [%s]'
+                    % (up.qual, cur, tgt, seq, upd.qual,
+                       'the step' if kind == 'accept' else 'them one by one',
+                       end, tgt, fd.message[:160]),
+                    fd.loc,
+                    history='pilot facade is %s, the notification(s) of the '
+                    'states between are lost or late, the %s notification '
+                    'arrives: Pilot._update rejects it in the state '
+                    'subscriber, pilot.state stays %s; pmgr.wait_pilots() / '
+                    'pilot.wait() (default: any final state) never return '
+                    'although the pilot is %s - with a timeout they return '
+                    'only at the timeout' % (cur, tgt, end, tgt))
+
+
+# ------------------------------------------------------------------------------
 #
 def run(prog, rep, tier):
     rep.decided = ('for Task.wait, Pilot.wait, TaskManager.wait_tasks and '
@@ -4709,11 +4898,16 @@ def run(prog, rep, tier):
         'a timeout (not None; 0 / negative only if the callee ends for it), '
         'and shrinks with the clock when handed down in a loop.  The poll '
         'period of every bounded blocking call of the polling loops stays '
-        'at most one second in every round (R15.10).')
+        'at most one second in every round (R15.10).  The state the pilot '
+        'waits poll becomes final for every non-final facade state and '
+        'every final notification (R15.11: C14 R14.7 evaluated for final '
+        'targets, replay x what Pilot._update accepts).')
     rep.undecided = ('"shortly after" below one second (the scheduling of the '
         'waiting thread; R15.10 bounds the poll period by one second only); '
         'that the state attribute is eventually updated '
-        '(C05/C06/C14).')
+        '(C05/C06/C14) - except the pilot facade for final notifications '
+        '(R15.11); the task side (TaskManager._update_tasks -> Task._update) '
+        'is C06\'s.')
     rep.assumptions = [
         'a final state never changes (C06 / C14), so a test `x.state in '
         'rps.FINAL` stays true for the rest of the wait',
@@ -4763,6 +4957,7 @@ def run(prog, rep, tier):
     rep.attempt(r15_8, prog, rep)
     rep.attempt(r15_9, prog, rep)
     rep.attempt(r15_10, prog, rep)
+    rep.attempt(r15_11, prog, rep)
 
 
 # ------------------------------------------------------------------------------
@@ -5725,4 +5920,74 @@ SILENT += [
         (_PM, _PM_ROUND, "        def _period():\n            return 0.1\n" + _PM_ROUND),
         (_PM, "            time.sleep (0.1)\n\n        self._rep.idle(mode='stop')",
               "            time.sleep (_period())\n\n        self._rep.idle(mode='stop')")]),
+]
+
+
+# ---- R15.11: the polled pilot state becomes final (C14's sites: what
+#      _update_pilot replays x what Pilot._update accepts)
+_UP_TRUNC = ("            if target in [rps.CANCELED, rps.FAILED]:\n"
+             "                # don't replay intermediate states\n"
+             "                passed = passed[-1:]\n")
+_UP_TEST  = "            if target in [rps.CANCELED, rps.FAILED]:\n"
+_PU_TEST  = "        if target not in [rps.FAILED, rps.CANCELED]:\n"
+_PU_STEP  = ("        if target not in [rps.FAILED, rps.CANCELED]:\n\n"
+             "            # ensure valid state transition\n"
+             "            state_diff = rps._pilot_state_value(target) - \\\n"
+             "                         rps._pilot_state_value(current)\n"
+             "            if state_diff > 1:\n"
+             "                raise RuntimeError('%s: invalid state transition %s -> %s',\n"
+             "                                   self.uid, current, target)\n")
+
+MUTATIONS += [
+    dict(name='R15.11 seed C15-j4: intermediate states dropped for every final target, DONE too (Pilot._update rejects the jump)',
+         rules=('R15.11',), edits=[(_PM, _UP_TEST, "            if target in rps.FINAL:\n")]),
+    dict(name='R15.11 same slip, truncation set hoisted and spelled as a tuple that includes DONE',
+         rules=('R15.11',), edits=[
+        (_PM, _UP_TRUNC, "            abnormal = (rps.FAILED, rps.CANCELED, rps.DONE)\n"
+                         "            if target in abnormal:\n                passed = passed[-1:]\n")]),
+    dict(name='R15.11 same slip in Pilot-independent form: everything but the last state dropped whenever a state was skipped',
+         rules=('R15.11',), edits=[
+        (_PM, _UP_TRUNC, "            if len(passed) > 1:\n                passed = passed[-1:]\n")]),
+    dict(name='R15.11 the final state itself is cut off the replay for FAILED / CANCELED',
+         rules=('R15.11',), edits=[
+        (_PM, "                passed = passed[-1:]\n", "                passed = passed[:-1]\n")]),
+    dict(name='R15.11 sibling site: Pilot._update no longer exempts CANCELED from the single-step test',
+         rules=('R15.11',), edits=[(_P, _PU_TEST, "        if target not in [rps.FAILED]:\n")]),
+    dict(name='R15.11 sibling site: Pilot._update rejects every step into a final state but from PMGR_ACTIVE (diff >= 1 for the abnormal ones)',
+         rules=('R15.11',), edits=[
+        (_P, _PU_STEP, _PU_STEP +
+             "        elif rps._pilot_state_value(target) - \\\n"
+             "             rps._pilot_state_value(current) > 1:\n"
+             "            raise RuntimeError('invalid state transition')\n")]),
+]
+
+SILENT += [
+    dict(name='R15.11 truncation in negated / else form with an explicit index', edits=[
+        (_PM, _UP_TRUNC, "            if target not in [rps.CANCELED, rps.FAILED]:\n                pass\n"
+                         "            else:\n                passed = passed[len(passed) - 1:]\n")]),
+    dict(name='R15.11 truncation as two equality tests, last element rebuilt if there is one', edits=[
+        (_PM, _UP_TRUNC, "            if target == rps.FAILED or target == rps.CANCELED:\n"
+                         "                if passed:\n                    passed = [passed[-1]]\n")]),
+    dict(name='R15.11 truncation test with hoisted container, truncated list under a new name', edits=[
+        (_PM, _UP_TRUNC + "\n            for s in passed:\n",
+              "            abnormal = (rps.FAILED, rps.CANCELED)\n            replay   = passed\n"
+              "            if target in abnormal:\n                replay = passed[-1:]\n\n            for s in replay:\n")]),
+    dict(name='R15.11 truncation test as "final but not DONE"', edits=[
+        (_PM, _UP_TEST, "            if target in rps.FINAL and target != rps.DONE:\n")]),
+    dict(name='R15.11 Pilot._update: single-step test with a hoisted flag and early-exit polarity', edits=[
+        (_P, _PU_STEP,
+             "        abnormal = target in (rps.CANCELED, rps.FAILED)\n"
+             "        if not abnormal and \\\n"
+             "           rps._pilot_state_value(target) > rps._pilot_state_value(current) + 1:\n"
+             "            raise RuntimeError('%s: invalid state transition %s -> %s',\n"
+             "                               self.uid, current, target)\n")]),
+    dict(name='R15.11 no truncation at all: intermediate states replayed for FAILED / CANCELED, too',
+         edits=[(_PM, _UP_TRUNC, "")],
+         note='the callbacks see more states (allowed by R14.7, too); the facade still becomes final'),
+    dict(name='R15.11 every passed state applied twice: C14 R14.7 fires (callbacks), the facade still becomes final',
+         edits=[(_PM, "                pilot_dict['state'] = s\n                self._pilots[pid]._update(pilot_dict)\n",
+                      "                pilot_dict['state'] = s\n                self._pilots[pid]._update(pilot_dict)\n"
+                      "                self._pilots[pid]._update(pilot_dict)\n")],
+         note='not behaviour-preserving for the callbacks (C14 reports it), but the waits are not affected: '
+              'R15.11 must not take that finding of R14.7 over'),
 ]
